@@ -275,6 +275,7 @@ class InstanceRun:
             self.wall_s = time.time() - t0
             return self
         viol, inconcl = False, False
+        replay_cache = {}
         for r in results:
             desc = r.get("description", "")
             st = r.get("status", "")
@@ -327,7 +328,12 @@ class InstanceRun:
                 self.failures.append(fail)
                 continue
             if i.native:
-                verdict, rdir, rerr = self.replay(inp, pname)
+                gk = (fail["file"], fail["line"], fail["kind"])
+                if gk in replay_cache and replay_cache[gk][0] in ("failed", "hang"):
+                    verdict, rdir, rerr = replay_cache[gk]
+                else:
+                    verdict, rdir, rerr = self.replay(inp, pname)
+                    replay_cache[gk] = (verdict, rdir, rerr)
                 fail["replay"] = rdir
                 fail["native"] = verdict
                 fail["stderr"] = rerr[-1500:]
@@ -425,8 +431,15 @@ def run_property(prop_id, tier, instances, level="model_checking", assumptions=N
     violations, inconclusive = [], []
     known_lines = []
     for r in runs:
+        groups_seen = {}
         for f in r.failures:
             if not f.get("confirmed"):
+                continue
+            # one report per (instance, failing source line): CBMC instruments several checks per line
+            gk = (os.path.basename(f.get("file") or ""), f.get("line"), f.get("kind"))
+            groups_seen[gk] = groups_seen.get(gk, 0) + 1
+            if groups_seen[gk] > 1 or len(groups_seen) > 8:
+                f["deduplicated"] = True
                 continue
             key = finding_key(r.inst.name, f)
             matched = None
